@@ -234,6 +234,7 @@ theorem packetToRaw_ok_inv (sm tr bh : Bytes) (hdr : Option Bytes) (data buf : B
   · omega
   · cases h
 
+/-- `generate_*_packet_bytes` on a buffer that is long enough -/
 theorem genPacket_ok (a d : B) (t : MsgType) (h : Option Bytes) (data buf : Bytes)
     (hfit : 1 + optLen h + data.length ≤ 250) (hbuf : 10 + optLen h + data.length ≤ buf.length) :
     genPacket a d t h data buf =
@@ -251,6 +252,7 @@ theorem genPacket_oversize (a d : B) (t : MsgType) (h : Option Bytes) (data buf 
   simp only []
   rw [if_pos (by unfold maxBodyLen; omega)]
 
+/-- on a buffer that is too short the writer panics (slice or index out of range) -/
 theorem genPacket_short (a d : B) (t : MsgType) (h : Option Bytes) (data buf : Bytes)
     (hfit : 1 + optLen h + data.length ≤ 250) (hbuf : buf.length < 10 + optLen h + data.length) :
     ∃ p, genPacket a d t h data buf = .panic p := by
